@@ -350,7 +350,8 @@ func (c *fuzzComp) agentReply(v int) ([]string, string, bool) {
 	shapes := []string{`"result":null`, `"result":null,"error":null`, `"error":null`, `"result":[]`, `"result":"str"`, `"result":42`, `"result":{}`,
 		`"result":{"balance":null,"invalid_peers":null,"active_peers":null,"peers":null}`, `"result":{"peers":[null]}`, `"result":{"peers":[{}],"balance":{}}`,
 		`"result":{"active_peers":"x","invalid_peers":7}`, `"result":{"balance":{"credit":"NaN","deposit":null}}`, `"result":{"peers":[{"id":"","uri":"://"}]}`,
-		`"result":{"invalid_peers":["",null,"@","enode://@"],"active_peers":[null]}`, `"result":true`, `"error":{"code":"x"}`, `"error":"str"`, `"error":{}`}
+		`"result":{"invalid_peers":["",null,"@","enode://@"],"active_peers":[null]}`, `"result":true`, `"error":{"code":"x"}`, `"error":"str"`, `"error":{}`,
+		"CLOSE", `"result":{"pool_version":7}`, "TRUNCATED"}
 	hostile := shapes[v%len(shapes)]
 	target := []string{"vipnode_update", "vipnode_peer", "vipnode_connect"}[(v/len(shapes))%3]
 	seen := map[string]int{}
@@ -379,6 +380,16 @@ func (c *fuzzComp) agentReply(v int) ([]string, string, bool) {
 			// the first call of the targeted method is answered properly (except connect), later ones with the odd shape
 			if m.Method == target && (seen[m.Method] > 1 || target == "vipnode_connect") {
 				body = hostile
+			}
+			switch body {
+			case "CLOSE":
+				// the pool goes away instead of answering
+				a.Close()
+				return
+			case "TRUNCATED":
+				a.Write([]byte(`{"jsonrpc":"2.0","id":` + string(m.ID) + `,"result":{"pool_ver`))
+				a.Close()
+				return
 			}
 			a.Write([]byte(`{"jsonrpc":"2.0","id":` + string(m.ID) + `,` + body + "}\n"))
 		}
@@ -527,6 +538,6 @@ func (c *fuzzComp) Gen(r *rand.Rand, idx int, emit func(string)) {
 	}
 	// the other direction: an agent and the replies its pool sends
 	for i := 0; i < 3; i++ {
-		emit(fmt.Sprintf("agentreply v=%d", r.Intn(54)))
+		emit(fmt.Sprintf("agentreply v=%d", r.Intn(63)))
 	}
 }
